@@ -101,6 +101,28 @@ def _handover(ctx, f, stmts, rule, after_pred, what):
               "the hand-over is the last step of the round: the old inbox must still be intact while the round is processed")
 
 
+def _replay(ctx, repo):
+    from .c19 import _drain_loops, buffer_uses
+    buf = "_paused_messages_recv"
+    n = 0
+    for fn in ("start", "pause"):
+        f = repo.func("pydcop.infrastructure.computations", f"MessagePassingComputation.{fn}")
+        ctx.touch(f)
+        for loop in _drain_loops(f.node, buf):
+            n += 1
+            if isinstance(loop, ast.While):
+                ok = len([1 for k, _ in buffer_uses(loop, buf) if k in ("pop", "popleft")]) == 1
+            else:
+                blk = next(b for o in ast.walk(f.node) for b in (getattr(o, "body", None), getattr(o, "orelse", None)) if isinstance(b, list) and loop in b)
+                after = blk[blk.index(loop) + 1:]
+                ok = any(k in ("clear", "assign") for st in after for k, _ in buffer_uses(st, buf)) and not any(k in ("append", "insert", "extend") for k, _ in buffer_uses(loop, buf))
+            ctx.check(ok, "R-REPLAY", f"MessagePassingComputation.{fn}: replay of {buf} removes each replayed message", f, loop,
+                      "a round-0 message received before start() and left in the buffer is replayed again by the next pause(False): the mixin then sees a message of an old cycle "
+                      "('invalid cycle' / 'two messages in a cycle')")
+    if n < 2:
+        raise AnalysisError(f"R-REPLAY: {n} replay loops found over {buf} (expected 2)")
+
+
 def check(ctx: Ctx):
     repo = ctx.repo
     ctx.decided = ("three-way classification of incoming messages by cycle id with the duplicate test before the store and no error on "
@@ -118,7 +140,9 @@ def check(ctx: Ctx):
     ctx.rule("R-HANDOVER", "inbox <- next inbox; next inbox <- fresh dict; unconditional; last")
     ctx.rule("R-STAMP", "post_msg stamps the current cycle unconditionally before delegating and records the target")
     ctx.rule("R-INIT", "mixin state initialised; every declared message type and cycle_sync routed to the sync handler")
+    ctx.rule("R-REPLAY", "a message kept while the computation was not started / paused is handed over exactly once: every replay loop empties what it replays")
     ctx.rule("R-CONFORM", "user classes: mixin first, machinery not overridden, on_new_cycle defined, mixin state not written, sends via self.post_msg")
+    _replay(ctx, repo)
 
     mixin = repo.cls(CM, MIXIN)
     ctx.touch(mixin)
@@ -573,6 +597,8 @@ def _conform(ctx, repo, mixin):
 
 _F = "pydcop/infrastructure/computations.py"
 VARIANTS = [
+    ("start_replays_without_emptying", _F, "        pending_msg_count = 0\n        while self._paused_messages_recv:\n            pending_msg_count += 1\n            src, msg, t = self._paused_messages_recv.pop(0)\n",
+     "        pending_msg_count = len(self._paused_messages_recv)\n        for src, msg, t in self._paused_messages_recv:\n", "break", "R-REPLAY"),
     ("copy_dropped", _F, "        remaining_neighbors = list(self.neighbors)\n", "        remaining_neighbors = self.neighbors\n", "break", "R-SWITCH"),
     ("stamp_conditional", _F, "        msg.cycle_id = self._current_cycle\n        super(SynchronousComputationMixin, self).post_msg",
      "        if getattr(msg, 'cycle_id', None) is None:\n            msg.cycle_id = self._current_cycle\n        super(SynchronousComputationMixin, self).post_msg", "break", "R-STAMP"),
